@@ -228,6 +228,38 @@ def _norm_sig(t):
     return t
 
 
+def _accessor_locals(f):
+    """ids of `let x = self.a.b().c();` locals: the initialiser is a chain of field reads and argument-less method calls that starts at `self`."""
+    out = set()
+    for y in fb.walk(f.body):
+        if y.get("k") != "let" or y.get("init") is None or (y.get("pat") or {}).get("k") != "p_bind":
+            continue
+        e_ = y["init"]
+        ok_ = True
+        steps = 0
+        while True:
+            k_ = e_.get("k")
+            if k_ in ("addrof", "unary"):
+                e_ = e_.get("e")
+            elif k_ == "field":
+                e_ = e_["e"]
+                steps += 1
+            elif k_ == "mcall" and not e_.get("args"):
+                e_ = e_["recv"]
+                steps += 1
+            elif k_ == "path" and e_.get("res") == "local" and e_.get("name") == "self":
+                break
+            else:
+                ok_ = False
+                break
+            if e_ is None:
+                ok_ = False
+                break
+        if ok_ and steps:
+            out.add(y["pat"]["id"])
+    return out
+
+
 def droppers_inventory(facts, rep, rid, fn_suffixes, audited, what):
     """Audited inventory of dropping / truncating / de-duplicating sequence adapters in the given fns.  Keys use the rename-independent rendering of the adapter's
     argument, so a NEW adapter gets a new key (and is reported) while renaming locals changes nothing.  `audited`: {(fn suffix, 'method(canonical arg)'): reason}."""
@@ -256,6 +288,8 @@ def droppers_inventory(facts, rep, rid, fn_suffixes, audited, what):
             # locals bound inside the adapter's own closure are read through (`|p| { let id = p.first_id(); f(id) }` = `|p| f(p.first_id())`);
             # locals of the enclosing fn stay opaque
             inner = set(lid for y in fb.walk(x["args"][0]) if y.get("k") == "let" for _n, lid in fb.pat_bindings(y.get("pat"))) if x["args"] else set()
+            # a local of the enclosing fn that only names an accessor chain on self (`let graph = self.database.graph();`) is read through as well
+            inner |= _accessor_locals(f)
             def render(e_):
                 a_ = fb.show_canon(f, e_, maxdepth=30, inline=4 if inner else 0, inline_only=inner).replace(" ", "")[:140]
                 return re.sub(r"let[A-Za-z0-9_?]+=[^;]*;", "", a_)
